@@ -65,9 +65,11 @@ def p_coeff(p, atom):
 
 
 class Poly:
-    def __init__(self, func, unit=None):
+    def __init__(self, func, unit=None, stepping=False):
         self.func = func
         self.unit = unit
+        self.stepping = stepping      # pointers only ever advanced by `+=`/`++` are init + an opaque step count
+        self.stepped = {}
         body = body_of(func)
         self.written = {}
         self.decls = {}
@@ -79,10 +81,14 @@ class Poly:
                 rd = ref_decl(x['inner'][0])
                 if rd:
                     self.written[rd.get('id')] = self.written.get(rd.get('id'), 0) + 1
+                    if x.get('opcode') == '+=':
+                        self.stepped[rd.get('id')] = self.stepped.get(rd.get('id'), 0) + 1
             elif k == 'UnaryOperator' and x.get('opcode') in ('++', '--'):
                 rd = ref_decl(x['inner'][0])
                 if rd:
                     self.written[rd.get('id')] = self.written.get(rd.get('id'), 0) + 1
+                    if x.get('opcode') == '++':
+                        self.stepped[rd.get('id')] = self.stepped.get(rd.get('id'), 0) + 1
 
     def single(self, rd):
         """the initialiser of a local that is never reassigned (None otherwise)"""
@@ -151,6 +157,13 @@ class Poly:
                 if pb:
                     return pb[0], p_add(pb[1], self.poly(a, depth + 1))
             return None
+        if k == 'DeclRefExpr' and self.stepping:
+            rd = ref_decl(n)
+            d = self.decls.get((rd or {}).get('id'))
+            if d is not None and kids(d) and self.written.get(d['id']) and self.written.get(d['id']) == self.stepped.get(d['id']) and '*' in (qtype(d) or ''):
+                r = self.pointer(kids(d)[-1], depth + 1)
+                if r is not None:
+                    return r[0], p_add(r[1], p_atom('@steps:' + (d.get('name') or '?')))
         if k == 'DeclRefExpr':
             init = self.single(ref_decl(n))
             # a pointer obtained from a call (an allocation, unique_ptr::get(), ...) is a base of its own
